@@ -30,6 +30,12 @@ type JourneyOpts struct {
 	Rng    *rand.Rand
 }
 
+// NoDesc is the scenario description of an unmodified journey (all reset records carry the same
+// fields).
+func NoDesc() map[string]any {
+	return map[string]any{"kind": "none", "pos": 0, "bit": 0, "side": "", "as": "", "if": 0}
+}
+
 // IfList converts path metadata interfaces.
 func (n *Net) IfList(p combinator.Path) []any {
 	out := []any{}
@@ -43,6 +49,7 @@ const maxSteps = 400
 
 // walk moves a packet from router to router until it reaches a host or dies.
 func (n *Net) walk(w *vt.Writer, a Arrival, j string) Outcome {
+	slow := false
 	for step := 0; step < maxSteps; step++ {
 		evs, o := n.Step(a, j)
 		for _, e := range evs {
@@ -53,7 +60,9 @@ func (n *Net) walk(w *vt.Writer, a Arrival, j string) Outcome {
 		} else if o.Slow {
 			j = "scmp2"
 		}
+		slow = slow || o.Slow
 		if o.Kind != "next" {
+			o.Slow = slow // what arrives (if anything) is an answer of a slow path
 			return o
 		}
 		a = o.Next
@@ -98,7 +107,7 @@ func (n *Net) Run(w *vt.Writer, src, dst int, p combinator.Path, o JourneyOpts) 
 	}
 	desc := o.Desc
 	if desc == nil {
-		desc = map[string]any{"kind": "none", "pos": 0, "bit": 0, "side": ""}
+		desc = NoDesc()
 	}
 	shs := netip.AddrPortFrom(sh, sport).String()
 	dhs := netip.AddrPortFrom(dh, dport).String()
